@@ -597,6 +597,10 @@ func (wr *Writer) appendStruct(rv reflect.Value, depth int, si *sinfo) {
 			if !fv.IsValid() {
 				fv = reflect.ValueOf(v)
 			}
+			if fv.Kind() == reflect.Slice && fv.Type().Elem().Kind() == reflect.Uint8 {
+				wr.appendJSON(fv.Bytes(), d2) // honor the BytesAs option
+				break
+			}
 			wr.appendSlice(fv, d2, fi.elem)
 		case reflect.Map:
 			if !fv.IsValid() {
